@@ -18,7 +18,7 @@ from concurrent.futures import ThreadPoolExecutor
 VERIF = os.environ.get("VERIF_ROOT") or os.path.dirname(os.path.dirname(os.path.abspath(__file__)))
 COQ = VERIF + "/coq"
 WORK = VERIF + "/.work"
-REPO = "/repo"
+REPO = os.environ.get("VERIF_REPO") or "/repo"
 NCPU = 16
 
 STDLIB_AXIOMS = {
